@@ -2,13 +2,14 @@
     transcriptions (used by tools/checks/c03.py through vm_compute). *)
 From Coq Require Import ZArith List Bool.
 Import ListNotations.
-From VIsa Require Import IsaState ExecImpl ExecSpec ExecImplV ExecSpecV IsaFloat ExecImplF ExecSpecF.
+From VIsa Require Import IsaState ExecImpl ExecSpec ExecImplV ExecSpecV IsaFloat ExecImplF ExecSpecF ExecImplM ExecSpecM.
 Open Scope Z_scope.
 
 (** partial state as the harness records it: scalars + the probed registers *)
 Record pstate := mkP {
   p_scc : Z; p_vcc : Z; p_exec : Z; p_m0 : Z; p_pc : Z;
-  p_s : list (Z * Z); p_v : list (Z * Z * Z)
+  p_s : list (Z * Z); p_v : list (Z * Z * Z);
+  p_mem : list (Z * Z); p_lds : list (Z * Z)   (* bytes: memory touched by the run, the whole LDS for DS cases *)
 }.
 
 Record case := mkCase {
@@ -25,7 +26,7 @@ Fixpoint lookup2 (l : list (Z * Z * Z)) (a b : Z) : Z :=
 
 Definition to_state (p : pstate) : state :=
   mkState (lookup (p_s p)) (lookup2 (p_v p)) (p_exec p) (p_vcc p) (p_scc p) (p_m0 p) (p_pc p)
-          (fun _ => 0) (fun _ => 0).
+          (lookup (p_mem p)) (lookup (p_lds p)).
 
 (** instructions whose VGPR result is a binary32 value: NaN results are compared
     as a class (payloads are outside the model) *)
@@ -42,21 +43,29 @@ Definition agrees_f (fl : bool) (st : state) (p : pstate) : bool :=
   (scc st =? p_scc p) && (vcc st =? p_vcc p) && (exec st =? p_exec p) && (m0 st =? p_m0 p) &&
   (pc st =? p_pc p) &&
   forallb (fun kv => sgpr st (fst kv) =? snd kv) (p_s p) &&
-  forallb (fun kv => veq fl (vgpr st (fst (fst kv)) (snd (fst kv))) (snd kv)) (p_v p).
+  forallb (fun kv => veq fl (vgpr st (fst (fst kv)) (snd (fst kv))) (snd kv)) (p_v p) &&
+  forallb (fun kv => mem st (fst kv) =? snd kv) (p_mem p) &&
+  forallb (fun kv => lds st (fst kv) =? snd kv) (p_lds p).
 Definition agrees (st : state) (p : pstate) : bool := agrees_f false st p.
 
 Definition is_vector (f : format) : bool :=
   match f with F_VOP2 | F_VOP1 | F_VOPC | F_VOP3A | F_VOP3B => true | _ => false end.
+Definition is_mem (f : format) : bool :=
+  match f with F_SMEM | F_FLAT | F_DS => true | _ => false end.
+(** size of the LDS slice the harness hands to the ALU *)
+Definition LSZ : Z := 256.
 Definition exec_impl (a : arch) (st : state) (i : inst) : option state :=
+  if is_mem (i_fmt i) then exec_mem a LSZ st i else
   if is_vector (i_fmt i) then exec_vector_f a st i else exec_scalar a st i.
 Definition exec_spec_all (a : arch) (st : state) (i : inst) : option state :=
+  if is_mem (i_fmt i) then exec_spec_mem a LSZ st i else
   if is_vector (i_fmt i) then exec_spec_vf a st i else exec_spec a st i.
 
 (** 0 = the Go run is exactly what the transcription of the Go code computes *)
 Definition check_impl (c : case) : Z :=
   match exec_impl (c_arch c) (to_state (c_pre c)) (c_inst c) with
   | None => if c_crash c then 0 else 1
-  | Some st' => if negb (c_crash c) && negb (c_eff c) && agrees_f (float_dst (c_inst c)) st' (c_post c) then 0 else 1
+  | Some st' => if negb (c_crash c) && (is_mem (i_fmt (c_inst c)) || negb (c_eff c)) && agrees_f (float_dst (c_inst c)) st' (c_post c) then 0 else 1
   end.
 
 (** 0 = the Go run is what the manual prescribes; 2 = it is not; 4 = the
@@ -64,7 +73,7 @@ Definition check_impl (c : case) : Z :=
 Definition check_spec (c : case) : Z :=
   match exec_spec_all (c_arch c) (to_state (c_pre c)) (c_inst c) with
   | None => 4
-  | Some st' => if negb (c_crash c) && negb (c_eff c) && agrees_f (float_dst (c_inst c)) st' (c_post c) then 0 else 2
+  | Some st' => if negb (c_crash c) && (is_mem (i_fmt (c_inst c)) || negb (c_eff c)) && agrees_f (float_dst (c_inst c)) st' (c_post c) then 0 else 2
   end.
 
 Fixpoint mism (n : Z) (l : list case) : list (Z * Z) :=
